@@ -6,7 +6,7 @@ ROOT = os.path.dirname(os.path.dirname(os.path.abspath(__file__)))
 rows = ["| id | breaks | change | needs, to manifest | caught by (quick tier) | first signature |", "|---|---|---|---|---|---|"]
 for d in sorted(glob.glob(ROOT + "/seeded/*/")):
     m = json.load(open(d + "meta.json"))
-    ev = m.get("evaluation", {})
+    ev = m.get("evaluation_final") or m.get("evaluation", {})
     caught = ev.get("caught_by")
     sig = ""
     for p in (caught or []):
